@@ -25,7 +25,7 @@ import (
 func TestVerifC11c(t *testing.T) {
 	r := vres.New("c11c")
 	defer r.Finish()
-	bound := vres.Pick(2, 3)
+	bound := vres.Pick(2, 6)
 	r.Bound("preemption_bound", bound)
 	crontabs := []string{"* * * * *", "*/5 * * * *", "0 * * * *", "0 0 * * *"}
 	for n := 2; n <= len(crontabs); n++ {
